@@ -448,7 +448,7 @@ func (d *Decls) Script(assumps []*Term, goal *Term, wantModel bool) string {
 			hit := false
 			for k := range s {
 				if used[k] && !builtinOps[k] {
-					if f, ok := d.funs[k]; ok && len(f.Args) > 0 {
+					if _, ok := d.funs[k]; ok {
 						hit = true
 						break
 					}
